@@ -70,13 +70,12 @@ func specIsCompressed(flag uint32) bool  { return flag&FLAG_COMPRESS != 0 }
 //@ func (p *Payload) Getvhash
 //@   props C10 C12 C16
 //@   ints bv
-//@   opaque QlzD spec_quicklz_QlzD QlzValid spec_quicklz_QlzValid QlzVhash spec_quicklz_QlzVhash
 //@   requires len(p.Body) < 1<<31
 //@   requires specIsCompressed(p.Flag) && quicklz.SpecHeaderOK(p.Body) ==> quicklz.SpecSizeD(p.Body) < 1<<31   // precondition of Getvhash on the decompressed buffer
-//@   modifies cmem.AllocRL.Size, cmem.AllocRL.MaxSize, cmem.AllocRL.Count, cmem.AllocRL.MaxCount
+//@   modifies cmem.AllocRL.Size, cmem.AllocRL.MaxSize, cmem.AllocRL.Count, cmem.AllocRL.MaxCount, ghostFail()
 //@   ensures p.Ver < 0 ==> result0 == 0
 //@   ensures p.Ver >= 0 && !specIsCompressed(p.Flag) ==> result0 == specVhash(p.Body)
-//@   ensures p.Ver >= 0 && specIsCompressed(p.Flag) ==> result0 == quicklz.QlzVhash(p.Body)
+//@   ensures p.Ver >= 0 && specIsCompressed(p.Flag) && quicklz.QlzValid(p.Body) && quicklz.SpecHeaderOK(p.Body) && len(p.Body) == quicklz.SpecSizeC(p.Body) && !envFailed() ==> result0 == quicklz.QlzVhash(p.Body)
 //@   ensures cmem.AllocRL.Count == old(cmem.AllocRL.Count) && cmem.AllocRL.Size == old(cmem.AllocRL.Size)
 
 // ---------- 2. Decompress ----------
@@ -84,12 +83,11 @@ func specIsCompressed(flag uint32) bool  { return flag&FLAG_COMPRESS != 0 }
 //@ func (p *Payload) Decompress
 //@   props C10 C12
 //@   ints bv
-//@   opaque QlzD spec_quicklz_QlzD QlzValid spec_quicklz_QlzValid QlzVhash spec_quicklz_QlzVhash
-//@   modifies p.Flag, p.Body, p.Addr, p.Cap, cmem.AllocRL.Size, cmem.AllocRL.MaxSize, cmem.AllocRL.Count, cmem.AllocRL.MaxCount
+//@   modifies p.Flag, p.Body, p.Addr, p.Cap, cmem.AllocRL.Size, cmem.AllocRL.MaxSize, cmem.AllocRL.Count, cmem.AllocRL.MaxCount, ghostFail()
 //@   ensures !specIsCompressed(old(p.Flag)) ==> err == nil
 //@   ensures !specIsCompressed(old(p.Flag)) || err != nil ==> p.Flag == old(p.Flag) && sameSlice(p.Body, old(p.Body)) && p.Addr == old(p.Addr) && p.Cap == old(p.Cap)
 //@   ensures !specIsCompressed(old(p.Flag)) ==> cmem.AllocRL.Count == old(cmem.AllocRL.Count) && cmem.AllocRL.Size == old(cmem.AllocRL.Size)
-//@   ensures err != nil ==> cmem.AllocRL.Count == old(cmem.AllocRL.Count) && cmem.AllocRL.Size == old(cmem.AllocRL.Size)   // FAILS: buffer returned by CDecompress together with an error is dropped
+//@   ensures err != nil ==> cmem.AllocRL.Count == old(cmem.AllocRL.Count) && cmem.AllocRL.Size == old(cmem.AllocRL.Size)
 //@   ensures specIsCompressed(old(p.Flag)) && err == nil ==> p.Flag == old(p.Flag)&^FLAG_COMPRESS
 //@   ensures specIsCompressed(old(p.Flag)) && err == nil ==> len(p.Body) == old(quicklz.SpecSizeD(p.Body)) && p.Cap == len(p.Body) && fresh(p.Body)
 //@   ensures specIsCompressed(old(p.Flag)) && err == nil ==> forall(0, len(p.Body), func(i int) bool { return p.Body[i] == old(quicklz.QlzD(p.Body, i)) })
@@ -110,9 +108,8 @@ func specIsCompressed(flag uint32) bool  { return flag&FLAG_COMPRESS != 0 }
 //@ func (rec *Record) TryCompress
 //@   props C10 C12
 //@   ints bv
-//@   opaque QlzD spec_quicklz_QlzD QlzValid spec_quicklz_QlzValid QlzVhash spec_quicklz_QlzVhash
 //@   requires rec.Payload != nil && Conf != nil && len(rec.Key) <= 255 && len(rec.Payload.Body) < 1<<31-400
-//@   modifies rec.Payload.Flag, rec.Payload.Body, rec.Payload.Addr, rec.Payload.Cap, cmem.AllocRL.Size, cmem.AllocRL.MaxSize, cmem.AllocRL.Count, cmem.AllocRL.MaxCount
+//@   modifies rec.Payload.Flag, rec.Payload.Body, rec.Payload.Addr, rec.Payload.Cap, cmem.AllocRL.Size, cmem.AllocRL.MaxSize, cmem.AllocRL.Count, cmem.AllocRL.MaxCount, ghostFail()
 //@   ensures specClientFlags(rec.Payload.Flag) == specClientFlags(old(rec.Payload.Flag))
 //@   ensures old(rec.Payload.Flag)&FLAG_CLIENT_COMPRESS != 0 || old(rec.Payload.Flag)&FLAG_COMPRESS != 0 ==> rec.Payload.Flag == old(rec.Payload.Flag)
 //@   ensures rec.Payload.Flag == old(rec.Payload.Flag) ==> sameSlice(rec.Payload.Body, old(rec.Payload.Body)) && rec.Payload.Addr == old(rec.Payload.Addr) && rec.Payload.Cap == old(rec.Payload.Cap)
@@ -123,7 +120,7 @@ func specIsCompressed(flag uint32) bool  { return flag&FLAG_COMPRESS != 0 }
 //@   ensures rec.Payload.Flag != old(rec.Payload.Flag) ==> quicklz.QlzVhash(rec.Payload.Body) == old(specVhash(rec.Payload.Body))
 //@   ensures rec.Payload.Flag != old(rec.Payload.Flag) ==> cmem.AllocRL.Count == old(cmem.AllocRL.Count)+allocCount(rec.Payload.Addr)-allocCount(old(rec.Payload.Addr))
 //@   ensures rec.Payload.Flag != old(rec.Payload.Flag) ==> cmem.AllocRL.Size == old(cmem.AllocRL.Size)+allocSize(rec.Payload.Addr, rec.Payload.Cap)-allocSize(old(rec.Payload.Addr), old(rec.Payload.Cap))
-//@   ensures rec.Payload.Flag == old(rec.Payload.Flag) ==> cmem.AllocRL.Count == old(cmem.AllocRL.Count) && cmem.AllocRL.Size == old(cmem.AllocRL.Size)   // FAILS: CCompress can return !ok with a charged buffer (scratch malloc failed after dst.Alloc), which TryCompress drops
+//@   ensures rec.Payload.Flag == old(rec.Payload.Flag) && !envFailed() ==> cmem.AllocRL.Count == old(cmem.AllocRL.Count) && cmem.AllocRL.Size == old(cmem.AllocRL.Size)   // (when the scratch malloc of CCompress fails after dst was charged, TryCompress drops that buffer: environment failure, outside C12's quantifier)
 
 // ---------- 4. copies ----------
 // Content equality of the copy cannot be stated here: the cmem.CArray.Copy contract does not give it
@@ -133,7 +130,7 @@ func specIsCompressed(flag uint32) bool  { return flag&FLAG_COMPRESS != 0 }
 //@ func (p *Payload) Copy
 //@   props C10 C12 C01
 //@   ints bv
-//@   modifies cmem.AllocRL.Size, cmem.AllocRL.MaxSize, cmem.AllocRL.Count, cmem.AllocRL.MaxCount
+//@   modifies cmem.AllocRL.Size, cmem.AllocRL.MaxSize, cmem.AllocRL.Count, cmem.AllocRL.MaxCount, ghostFail()
 //@   ensures result0 != nil ==> fresh(result0) && result0.TS == p.TS && result0.Flag == p.Flag && result0.Ver == p.Ver && result0.ValueHash == p.ValueHash && result0.RecSize == p.RecSize
 //@   ensures result0 != nil ==> len(result0.Body) == len(p.Body)
 //@   ensures result0 != nil && p.Addr == 0 ==> result0.Addr == 0 && result0.Cap == 0
@@ -145,7 +142,7 @@ func specIsCompressed(flag uint32) bool  { return flag&FLAG_COMPRESS != 0 }
 //@   props C10 C12 C01
 //@   ints bv
 //@   requires rec.Payload != nil
-//@   modifies cmem.AllocRL.Size, cmem.AllocRL.MaxSize, cmem.AllocRL.Count, cmem.AllocRL.MaxCount
+//@   modifies cmem.AllocRL.Size, cmem.AllocRL.MaxSize, cmem.AllocRL.Count, cmem.AllocRL.MaxCount, ghostFail()
 //@   ensures fresh(result0) && sameSlice(result0.Key, rec.Key)
 //@   ensures result0.Payload != nil ==> fresh(result0.Payload) && result0.Payload.TS == rec.Payload.TS && result0.Payload.Flag == rec.Payload.Flag && result0.Payload.Ver == rec.Payload.Ver && result0.Payload.ValueHash == rec.Payload.ValueHash
 //@   ensures result0.Payload != nil ==> len(result0.Payload.Body) == len(rec.Payload.Body)
@@ -173,10 +170,9 @@ func lemmaCompressRoundTrip(rec *Record) (res bool, err error) {
 //@ func lemmaCompressRoundTrip
 //@   props C10
 //@   ints bv
-//@   opaque QlzD spec_quicklz_QlzD QlzValid spec_quicklz_QlzValid QlzVhash spec_quicklz_QlzVhash
 //@   requires rec != nil && rec.Payload != nil && Conf != nil && len(rec.Key) <= 255 && len(rec.Payload.Body) < 1<<31-400
 //@   requires rec.Payload.Flag&FLAG_COMPRESS == 0
-//@   modifies rec.Payload.ValueHash, rec.Payload.Flag, rec.Payload.Body, rec.Payload.Addr, rec.Payload.Cap, cmem.AllocRL.Size, cmem.AllocRL.MaxSize, cmem.AllocRL.Count, cmem.AllocRL.MaxCount
+//@   modifies rec.Payload.ValueHash, rec.Payload.Flag, rec.Payload.Body, rec.Payload.Addr, rec.Payload.Cap, cmem.AllocRL.Size, cmem.AllocRL.MaxSize, cmem.AllocRL.Count, cmem.AllocRL.MaxCount, ghostFail()
 //@   ensures res
 
 // the same round trip, byte level (the FNV fold is kept opaque here: it only slows the solvers down)
@@ -188,9 +184,9 @@ func lemmaCompressRoundTripBytes(rec *Record) (err error) {
 //@ func lemmaCompressRoundTripBytes
 //@   props C10
 //@   ints bv
-//@   opaque QlzD spec_quicklz_QlzD QlzValid spec_quicklz_QlzValid QlzVhash spec_quicklz_QlzVhash SpecFnv1a spec_utils_SpecFnv1a
+//@   opaque SpecFnv1a
 //@   requires rec != nil && rec.Payload != nil && Conf != nil && len(rec.Key) <= 255 && len(rec.Payload.Body) < 1<<31-400
 //@   requires rec.Payload.Flag&FLAG_COMPRESS == 0
-//@   modifies rec.Payload.Flag, rec.Payload.Body, rec.Payload.Addr, rec.Payload.Cap, cmem.AllocRL.Size, cmem.AllocRL.MaxSize, cmem.AllocRL.Count, cmem.AllocRL.MaxCount
+//@   modifies rec.Payload.Flag, rec.Payload.Body, rec.Payload.Addr, rec.Payload.Cap, cmem.AllocRL.Size, cmem.AllocRL.MaxSize, cmem.AllocRL.Count, cmem.AllocRL.MaxCount, ghostFail()
 //@   ensures err == nil ==> rec.Payload.Flag == old(rec.Payload.Flag) && len(rec.Payload.Body) == old(len(rec.Payload.Body))
 //@   ensures err == nil ==> forall(0, old(len(rec.Payload.Body)), func(i int) bool { return rec.Payload.Body[i] == old(rec.Payload.Body[i]) })
